@@ -34,6 +34,7 @@ import (
 	"net"
 	"net/netip"
 	"os"
+	"runtime"
 	"slices"
 	"sync"
 	"testing"
@@ -328,6 +329,16 @@ func c19NewNet(c c19Case) *c19Net {
 		}
 	}
 	return n
+}
+
+func (n *c19Net) hurtCopy() map[string]int {
+	n.mu.Lock()
+	defer n.mu.Unlock()
+	m := map[string]int{}
+	for k, v := range n.hurt {
+		m[k] = v
+	}
+	return m
 }
 
 func (n *c19Net) freeze() {
@@ -887,7 +898,13 @@ func c19RunCase(t *testing.T, c c19Case, r *vp.Rec) (err error) {
 					s, err = conn.NewStream(ctx)
 				}
 				if err != nil {
-					x.fail("opening stream %d: %v", i, err)
+					select {
+					case <-x.frozenc:
+						return // cut off by the freeze variant's teardown
+					default:
+					}
+					conn.Wait(ctx) // the conn is gone; Wait returns once its final error is set
+					x.fail("opening stream %d: %v (conn: %v; faults applied so far: %v)", i, err, conn.lifetime.finalErr, x.net.hurtCopy())
 					return
 				}
 				if s.id != x.dirs[2*i].id {
@@ -1166,5 +1183,8 @@ func c19Prop(c c19Case, r *vp.Rec) error {
 }
 
 func TestVP_C19(t *testing.T) {
+	// One P: the goroutines of a bubble are then scheduled (almost) deterministically,
+	// which makes runs repeatable for a given seed and replays and shrinking meaningful.
+	defer runtime.GOMAXPROCS(runtime.GOMAXPROCS(1))
 	vp.Run(t, vp.Spec[c19Case]{ID: "C19", CrashFile: true, Gen: c19Gen, Prop: c19Prop, Known: c19Known})
 }
